@@ -1,5 +1,8 @@
 """C08 — File and pipe I/O matches the OS, identically on every driver (structural clauses)."""
+import re
+
 from .. import engine
+from ..facts import call_matches, op_place
 from .. import opcodes as oc
 from .c01 import has_iour, has_poll
 
@@ -46,6 +49,81 @@ def rules(ctx, db):
         ctx.rule("R8", "DIR", "a polling file/pipe op waits for the readiness its system call needs (Readable for read, Writable for write)")
         n8 = oc.rule_interest(ctx, db, "R8", want_socket=False)
         ctx.floor("R8", "polling file/pipe ops with a readiness interest", n8, 5)
+
+
+    # R9: values handed to the OS / taken from it keep their meaning
+    ctx.rule("R9", "same-value", "io_uring read / write entries always set the offset: the positional ops their own, the sequential "
+             "ops -1 (\"use and advance the file position\", like read(2)/write(2)); a (signed) stat time is converted with its "
+             "sign (times before 1970 do not overflow)")
+    if has_iour(db):
+        n9 = 0
+        for imp, adt, ms in oc.op_impls(db, oc.IOUR_OP):
+            ce = ms.get("create_entry")
+            if ce is None or oc.is_socket_op(adt):
+                continue
+            rw = [(bb, t) for bb, t in ce.calls() if re.search(r"io_uring::opcode::(Read|Write|Readv|Writev)::new$", t.get("rfn") or t.get("fn") or "")]
+            if not rw:
+                continue
+            n9 += 1
+            off = [(bb, t) for bb, t in ce.calls() if re.search(r"io_uring::opcode::(Read|Write|Readv|Writev)::offset$", t.get("rfn") or t.get("fn") or "")]
+            ok = bool(off)
+            how = "no offset set: the kernel reads / writes at offset 0 every time"
+            for bb, t in off:
+                a = t["args"][1]
+                pl = op_place(a)
+                if pl is None:
+                    ok = ok and str(a.get("v")) in ("18446744073709551615", "-1")
+                    how = "offset constant %s" % a.get("v")
+                else:
+                    from ..util import data_deps
+                    flds = {e[2] for q in data_deps(ce, pl["l"])[2] for e in q["p"] if isinstance(e, list) and e[0] == "f"}
+                    ok = ok and "offset" in flds
+                    how = "offset from field(s) %s" % ",".join(sorted(flds))
+            ctx.ob("R9", "rw-entry-sets-offset:" + oc.short(adt), ok, how, ce)
+        ctx.floor("R9", "io_uring read/write entry builders (file/pipe ops)", n9, 8)
+    if any(n.startswith("compio_fs::") for n in db.adts):
+        from .. import arith
+        from ..util import data_deps
+        nt = 0
+        for f in db.fns.values():
+            if not f.id.startswith("compio_fs::metadata::"):
+                continue
+            sg = None
+            for bb, t in f.calls():
+                if not call_matches(t, r"core::time::Duration::from_secs$"):
+                    continue
+                pl = op_place(t["args"][0])
+                if pl is None:
+                    continue
+                # does the argument come from a signed value through an int cast?
+                signed = None
+                locs, cr, places = data_deps(f, pl["l"])
+                for l in locs | {pl["l"]}:
+                    for d in f.cfg.defs.get(l, []):
+                        if d[0] == "assign" and d[3]["r"].get("k") == "cast" and d[3]["r"].get("ops"):
+                            q = op_place(d[3]["r"]["ops"][0])
+                            if q is not None and f.local_ty(q["l"]).startswith("i") and f.local_ty(l).startswith("u"):
+                                signed = q
+                if signed is None:
+                    continue
+                nt += 1
+                sg = sg or arith.Sigs(f)
+                zeros = []
+                for bi2, si2, st2 in f.stmts():
+                    r2 = st2.get("r", {})
+                    if r2.get("k") == "bin" and r2.get("x") in ("Ge", "Gt", "Le", "Lt"):
+                        for o2 in r2["ops"]:
+                            if "k" in o2 and str(o2.get("v")) == "0":
+                                zeros.append(sg.operand(o2))
+                ok = any(arith.established_le(f, sg, z, sg.place(signed), bb) for z in zeros)
+                ctx.ob("R9", "stat-time-sign-checked:" + db.root_fn(f).name, ok,
+                       "a signed number of seconds is cast to u64 only on the `>= 0` edge (negative values go through unsigned_abs "
+                       "and are subtracted from the epoch)", f)
+        sec_fields = 0
+        for f in db.fns.values():
+            if f.id.startswith("compio_fs::metadata::") and f.short in ("modified", "accessed", "created"):
+                sec_fields += 1
+        ctx.floor("R9", "stat-time conversions (sites casting signed seconds, or none because a helper does it)", nt + (1 if sec_fields else 0), 1)
 
 
 def check(tier):
